@@ -80,11 +80,19 @@ KERNELS = [
          # the two float expressions of the kernel are parameters: the cumulative sums (np.cumsum) and the
          # stream of rolls `sumweights * random.random()`; `roll == 0.0 and sumweights > 0.0` is `roll = 0 ∧ 0 < sum`
          ext={"np.cumsum": ("cumsumweights_ext", "Arr")}, roll_stream=True),
+    # ---- third batch
+    dict(name="common_region_two_trees", file=U, func="common_region_two_trees",
+         params=[("n_args_array_1", "Arr"), ("n_args_array_2", "Arr")], ret="Mat",
+         fuel="n_args_array_1.length + n_args_array_2.length + 1",
+         uses=["find_first_difference_between_two", "find_end_subtree_from_i"]),
+    dict(name="tournament_selection", file="utils/selections.py", func="tournament_selection",
+         params=[("fitness", "Arr"), ("rank", "Arr"), ("tour_size", "Int"), ("quantity", "Int")], ret="Arr",
+         ext_stream={"random_sample": "samples"}),
 ]
 
 LTY = {"Int": "Int", "Arr": "List Int", "Bool": "Bool", "Mat": "List (List Int)"}
 DEFAULT = {"Int": "0", "Arr": "[]", "Bool": "false", "Mat": "[]"}
-RESERVED = ("end", "at", "from", "to", "in", "do", "then", "fun", "match", "with", "open", "by", "s", "us", "ns", "fuel", "rolls", "max", "min", "hi0")
+RESERVED = ("end", "at", "from", "to", "in", "do", "then", "fun", "match", "with", "open", "by", "s", "us", "ns", "fuel", "rolls", "max", "min", "hi0", "samples")
 
 
 class NotRecognised(Exception):
@@ -129,6 +137,7 @@ class Tr:
         self.params = dict(cfg["params"])
         self.self_attrs = cfg.get("self_attrs", {})
         self.ext = cfg.get("ext", {})
+        self.ext_stream = cfg.get("ext_stream", {})
         self.uses = cfg.get("uses", [])
         self.streams = bool(cfg.get("streams"))
         self.roll_stream = bool(cfg.get("roll_stream"))
@@ -174,7 +183,9 @@ class Tr:
                 return self.ty(f.value)
             if is_np(f, "empty", "arange", "zeros", "empty_like", "array", "cumsum"):
                 return "Arr"
-            if nm == "sorted":
+            if nm in ("sorted", "range"):
+                return "Arr"
+            if nm in self.ext_stream:
                 return "Arr"
             if nm == "flip_coin":
                 return "Bool"
@@ -202,6 +213,8 @@ class Tr:
                         for el in t.elts:
                             if isinstance(el, ast.Name):
                                 self.setlocal(el.id, "Int")
+            elif isinstance(st, ast.AnnAssign) and isinstance(st.target, ast.Name) and st.value is not None:
+                self.setlocal(st.target.id, self.ty(st.value))
             elif isinstance(st, ast.AugAssign) and isinstance(st.target, ast.Name):
                 self.setlocal(st.target.id, "Int")
             elif isinstance(st, ast.For):
@@ -263,6 +276,9 @@ class Tr:
                 return
             if guarded:
                 raise NotRecognised(f"effectful call {ast.unparse(e)} under a short-circuit operator")
+            argcond = bor(*[self.oob(a, env) for a in list(e.args) + [k.value for k in e.keywords]])
+            if argcond != "false":
+                lines.append(f"{{ s with err := s.err || {argcond} }}")
             if kind in ("u", "coin"):
                 if not self.streams:
                     raise NotRecognised("random draw in a kernel without streams")
@@ -280,6 +296,11 @@ class Tr:
             elif kind == "roll":
                 t = self.tmp("Int")
                 lines.append(f"{{ s with {t} := Imp.geti rolls s.kr, dry := s.dry || decide (rolls.length ≤ s.kr), kr := s.kr + 1 }}")
+                env[id(e)] = f"s.{t}"
+            elif kind == "xstream":
+                t = self.tmp("Arr")
+                xs = self.ext_stream[nm]
+                lines.append(f"{{ s with {t} := Imp.getrow {xs} (s.kx : Int), dry := s.dry || decide ({xs}.length ≤ s.kx), kx := s.kx + 1 }}")
                 env[id(e)] = f"s.{t}"
             elif kind == "pop":
                 a = self.id(e.func.value.id)
@@ -325,6 +346,8 @@ class Tr:
             return "pop"
         if nm in self.uses:
             return "kernel"
+        if nm in self.ext_stream:
+            return "xstream"
         return None
 
     # ---- expressions (pure, after hoisting)
@@ -395,7 +418,12 @@ class Tr:
             return "(" + sym.join(self.B(v, env) for v in e.values) + ")"
         if isinstance(e, ast.Subscript):
             if isinstance(e.slice, ast.Slice):
-                raise NotRecognised("slice outside a for loop")
+                sl = e.slice
+                if sl.step is not None or sl.lower is None or self.ty(e.value) != "Arr":
+                    raise NotRecognised(f"slice {ast.unparse(e)}")
+                if sl.upper is None:
+                    return f"(Imp.dropFrom {self.E(e.value, env)} {self.E(sl.lower, env)})"
+                return f"(Imp.slice {self.E(e.value, env)} {self.E(sl.lower, env)} {self.E(sl.upper, env)})"
             vt = self.ty(e.value)
             if isinstance(e.slice, ast.UnaryOp) and isinstance(e.slice.op, ast.USub) and isinstance(e.slice.operand, ast.Constant) and e.slice.operand.value == 1 and vt == "Arr":
                 return f"(Imp.last {self.E(e.value, env)})"
@@ -422,11 +450,15 @@ class Tr:
                     return self.E(args[0], env)
                 if f.id == "sorted" and len(args) == 1:
                     return f"(Imp.sorted {self.E(args[0], env)})"
+                if f.id == "range" and len(args) == 1:
+                    return f"((List.range ({self.E(args[0], env)}).toNat).map Int.ofNat)"
                 raise NotRecognised(f"call of {f.id}")
             if is_np(f, "int64") and len(args) == 1:
                 return self.E(args[0], env)
             if is_np(f, "array") and len(args) == 1:
                 return self.E(args[0], env)
+            if is_np(f, "argmax") and len(args) == 1 and isinstance(args[0], ast.Subscript) and self.ty(args[0].slice) == "Arr":
+                return f"(Imp.argmax (Imp.gather {self.E(args[0].value, env)} {self.E(args[0].slice, env)}))"
             if isinstance(f, ast.Attribute) and f.attr == "copy" and not args:
                 return self.E(f.value, env)
             if is_np(f, "empty", "zeros") and len(args) >= 1:
@@ -464,6 +496,17 @@ class Tr:
                 else:
                     acc = self.oob(v, env)
             return acc
+        if isinstance(e, ast.Subscript) and isinstance(e.slice, ast.Slice):
+            sl = e.slice
+            parts = [self.oob(e.value, env)]
+            for b in (sl.lower, sl.upper):
+                if b is not None:
+                    parts += [self.oob(b, env), f"decide ({self.E(b, env)} < 0)"]
+            return bor(*parts)
+        if isinstance(e, ast.Call) and id(e) not in env and is_np(e.func, "argmax") and len(e.args) == 1 and isinstance(e.args[0], ast.Subscript) \
+                and not isinstance(e.args[0].slice, ast.Slice) and self.ty(e.args[0].slice) == "Arr":
+            a, ix = self.E(e.args[0].value, env), self.E(e.args[0].slice, env)
+            return bor(self.oob(e.args[0].value, env), self.oob(e.args[0].slice, env), f"(! Imp.allInb {a} {ix})", f"({ix}).isEmpty")
         if isinstance(e, ast.Subscript) and not isinstance(e.slice, ast.Slice):
             sh = None
             if isinstance(e.value, ast.Attribute) and e.value.attr == "shape":
@@ -527,7 +570,15 @@ class Tr:
                 if c.func.attr == "pop" and not c.args:
                     L.append(f"{{ s with err := s.err || s.{a}.isEmpty, {a} := s.{a}.dropLast }}")
                     return L
+                if c.func.attr == "extend" and len(c.args) == 1 and self.ty(c.args[0]) == "Arr":
+                    env = self.pre([c.args[0]], L)
+                    L.append(f"{{ s with {a} := s.{a} ++ {self.E(c.args[0], env)} }}")
+                    return L
             raise NotRecognised(f"expression statement {ast.unparse(st)}")
+        if isinstance(st, ast.AnnAssign) and isinstance(st.target, ast.Name) and st.value is not None:
+            env = self.pre([st.value], L)
+            L.append(f"{{ s with {self.id(st.target.id)} := {self.Ex(st.value, env)} }}")
+            return L
         if isinstance(st, ast.Assign):
             if len(st.targets) != 1:
                 raise NotRecognised("chained assignment")
@@ -664,7 +715,20 @@ class Tr:
                 raise NotRecognised("break / continue outside a loop")
             for ln in self.stmt(st, ind):
                 lines.append(f"{pad}let s := {ln}")
-        if isinstance(last, ast.Return):
+        if isinstance(last, ast.Return) and self.cfg["ret"] == "Mat" and isinstance(last.value, (ast.Tuple, ast.List)):
+            flatn = []
+
+            def walk(v):
+                if isinstance(v, (ast.Tuple, ast.List)) and not (isinstance(v, ast.List) and all(self.ty(x) == "Int" for x in v.elts) and v.elts):
+                    for x in v.elts:
+                        walk(x)
+                elif self.ty(v) == "Arr":
+                    flatn.append(self.E(v, {}))
+                else:
+                    raise NotRecognised("returned structure")
+            walk(last.value)
+            lines.append(f"{pad}if s.err || s.dry then none else some ([" + ", ".join(flatn) + "])")
+        elif isinstance(last, ast.Return):
             L = []
             env = self.pre([last.value], L)
             for ln in L:
@@ -698,18 +762,19 @@ class Tr:
                 extra += " (ns : List Int)"
         if self.roll_stream:
             extra += " (rolls : List Int)"
+        extra += "".join(f" ({v} : List (List Int))" for v in self.ext_stream.values())
         imports = "".join(f"import TFV.Generated.Src.{u}\n" for u in self.uses)
         fuel = f"  let fuel : Nat := {cfg['fuel']}\n" if cfg.get("fuel") else ""
         return (f"/- GENERATED by harness/extract/py2lean.py from /repo/src/thefittest/{cfg['file']} ({(cfg.get('cls') + '.') if cfg.get('cls') else ''}{cfg['func']})\n"
                 f"   on every run of the checks that depend on it. Do not edit. -/\n"
                 f"import TFV.Model.Imp\n{imports}\nset_option linter.unusedVariables false\n\nnamespace TFV.Generated.Src\nopen TFV\n\n"
                 f"structure {name}.S where\n{fields}  brk : Bool := false\n  cnt : Bool := false\n  err : Bool := false\n  dry : Bool := false\n"
-                f"  ku : Nat := 0\n  kn : Nat := 0\n  kr : Nat := 0\n\n"
+                f"  ku : Nat := 0\n  kn : Nat := 0\n  kr : Nat := 0\n" + ("  kx : Nat := 0\n" if self.ext_stream else "") + "\n"
                 f"def {name} {params} {extra} : Option ({LTY[cfg['ret']]}) :=\n"
                 f"  let s : {name}.S := {{}}\n{fuel}{body}\n\nend TFV.Generated.Src\n")
 
 
-NP_FUNCS = ("int64", "floor", "array", "empty", "zeros", "empty_like", "arange", "cumsum")
+NP_FUNCS = ("int64", "floor", "array", "empty", "zeros", "empty_like", "arange", "cumsum", "argmax")
 KERNEL_BY_NAME = {k["name"]: k for k in KERNELS}
 
 
